@@ -552,6 +552,49 @@ func (e *env) directed(rng *rand.Rand) {
 			vh.RemoveAll(mroot)
 		}
 	}
+	// the server is closed (Close, or a Shutdown whose context has ended) while a completing PUT / monolithic POST still
+	// waits for the end of its body: the handler is still running and has to answer - an error, whatever - it must not
+	// panic ("returns a response without panicking")
+	for _, form := range []string{"put", "monolithic-post"} {
+		croot := ""
+		if e.kind != vh.Mem {
+			croot = e.r.TempDir("c15c")
+		}
+		cs := vh.New(vh.Conf(e.kind, croot, vh.Neutral))
+		content := []byte(fmt.Sprintf("closed under a completion %d %s", e.idx, form))
+		cd := vh.DigestOf("sha256", content)
+		var meth, u string
+		switch form {
+		case "put":
+			ns := vh.Do(cs, vh.Req{Method: "POST", URL: "/v2/r/blobs/uploads/"})
+			ps := vh.Do(cs, vh.Req{Method: "PATCH", URL: ns.H.Get("Location"), Body: content})
+			if ns.Status != 202 || ps.Status != 202 || ps.H.Get("Location") == "" {
+				_ = cs.Close()
+				continue
+			}
+			meth, u = "PUT", ps.H.Get("Location")+"&digest="+cd
+		default:
+			meth, u = "POST", "/v2/r/blobs/uploads/?digest="+cd
+		}
+		pr, pw := io.Pipe()
+		done := make(chan vh.Resp, 1)
+		go func() { done <- vh.DoStream(cs, meth, u, nil, pr) }()
+		if form != "put" {
+			_, _ = pw.Write(content)
+		}
+		time.Sleep(3 * time.Millisecond)
+		_ = cs.Close()
+		_ = pw.Close()
+		rs := <-done
+		if rs.Panic != "" {
+			e.observe(vh.Req{Method: meth, URL: u, UnknownLen: true}, rs, "", "directed:server-closed-under-completion")
+		}
+		e.r.Count("directed_conditions", 1)
+		e.r.Distinct("directed_classes", "server-closed-under-completion:"+form)
+		if croot != "" {
+			vh.RemoveAll(croot)
+		}
+	}
 	// ... and the same with nothing left to send: the completing PUT has read all there is when the session is ended
 	// under it (by the client's own DELETE, or by a second, identical PUT that completes first) - no more data arrives,
 	// the handler goes straight on to store a blob for a session that is gone
